@@ -3,6 +3,7 @@ import BioscrapeModel.Model.EntryPoint
 import BioscrapeModel.Model.ModelState
 import BioscrapeModel.Model.Priors
 import BioscrapeModel.Model.Inference
+import BioscrapeModel.Model.Sensitivity
 
 /-
 `modeldriver`: one JSON job per input line, one JSON answer per output line
@@ -346,6 +347,24 @@ def jobInfer (j : Json) : Except String Json := do
     | some c => return Json.mkObj [("cost", Codec.enc c)]
     | none => return Json.mkObj [("cost", Json.null)]
 
+/-- `compute_J` and `compute_Zj` on an explicit interface description. -/
+def jobSens (j : Json) : Except String Json := do
+  let m ← decSimModel (α := α) j
+  let x ← getNumList (α := α) j "x"
+  let p ← getNumList (α := α) j "p"
+  let t : α ← getNum j "t"
+  let h : α ← getNum j "h"
+  let meth ← match (getStrField j "method").toOption.getD "fourth_order_central_difference" with
+    | "fourth_order_central_difference" => pure DiffMethod.fourth
+    | "central_difference" => pure DiffMethod.central
+    | "backward_difference" => pure DiffMethod.backward
+    | "forward_difference" => pure DiffMethod.forward
+    | s => throw s!"bad method {s}"
+  let pj ← getNatField j "pj"
+  return Json.mkObj [("J", Json.arr ((computeJ meth m x p t h).map encList).toArray),
+                     ("Z", encList (computeZj meth m x p pj t h)),
+                     ("f", encList (evaluateModel m x p t))]
+
 def dispatch (op : String) (j : Json) : Except String Json :=
   match op with
   | "prop" => jobProp (α := α) j
@@ -358,6 +377,7 @@ def dispatch (op : String) (j : Json) : Except String Json :=
   | "modelops" => jobModelOps (α := α) j
   | "prior" => jobPrior (α := α) j
   | "infer" => jobInfer (α := α) j
+  | "sens" => jobSens (α := α) j
   | _ => throw s!"unknown op {op}"
 end
 
